@@ -8,7 +8,9 @@ package main
 // script / log / journal logic as the message-level fake.  Leaders move while batches are in flight.
 
 import (
+	"bytes"
 	"context"
+	"encoding/binary"
 	"fmt"
 	"io"
 	"net"
@@ -49,6 +51,15 @@ type wireCluster struct {
 	misrouted   int // produce requests that arrived at a broker which is not the partition's leader
 	dialFail    int // the next n dials fail (broker unreachable)
 	dialsFailed int
+	// a broker that stops reading in the middle of a request: the stallAt-th produce request to ARRIVE (counted when its
+	// header has been read) is read to the middle of its body, then the connection is left alone until stallGate is
+	// closed; stalled is closed when the stall begins, stallDone when that connection's handler has finished
+	stallAt   int
+	narrive   int
+	stallGate chan struct{}
+	stalled   chan struct{}
+	stallDone chan struct{}
+	stallRest string // what happened to the rest of the stalled request: "eof" (the client had given up) / "delivered"
 }
 
 func newWireCluster(f *fakeRT, nbrokers int, nparts map[string]int, moves []leaderMove) *wireCluster {
@@ -68,7 +79,7 @@ func newWireCluster(f *fakeRT, nbrokers int, nparts map[string]int, moves []lead
 		}
 		fc.Topics[t] = tp
 	}
-	return &wireCluster{fc: fc, f: f, moves: moves}
+	return &wireCluster{fc: fc, f: f, moves: moves, stallGate: make(chan struct{}), stalled: make(chan struct{}), stallDone: make(chan struct{})}
 }
 
 func (w *wireCluster) bootAddr() net.Addr { return kafka.TCP("b1:9092") }
@@ -110,7 +121,56 @@ func (w *wireCluster) close() {
 func (w *wireCluster) serve(broker int32, conn *wireConn) {
 	defer conn.Close()
 	for {
-		ver, corr, _, msg, err := protocol.ReadRequest(conn)
+		// frame by hand (size, then api key + version, then the rest), so that a scripted stall can stop reading in the
+		// middle of a produce request the way a broker that no longer drains its socket does
+		var hdr [8]byte
+		if _, err := io.ReadFull(conn, hdr[:]); err != nil {
+			return
+		}
+		size := int(binary.BigEndian.Uint32(hdr[:4]))
+		if size < 4 || size > 64<<20 {
+			return
+		}
+		body := make([]byte, size-4)
+		stallHere := false
+		if binary.BigEndian.Uint16(hdr[4:6]) == 0 { // Produce
+			w.mu.Lock()
+			w.narrive++
+			stallHere = w.stallAt > 0 && w.narrive == w.stallAt
+			w.mu.Unlock()
+		}
+		if stallHere {
+			half := len(body) / 2
+			if _, err := io.ReadFull(conn, body[:half]); err != nil {
+				close(w.stalled)
+				close(w.stallDone)
+				return
+			}
+			close(w.stalled)
+			<-w.stallGate
+			_, err := io.ReadFull(conn, body[half:])
+			w.mu.Lock()
+			if err != nil {
+				w.stallRest = "eof"
+			} else {
+				w.stallRest = "delivered"
+			}
+			w.mu.Unlock()
+			if err != nil {
+				close(w.stallDone)
+				return
+			}
+			ver, corr, _, msg, err := protocol.ReadRequest(bytes.NewReader(append(hdr[:], body...)))
+			if err == nil {
+				w.serveOne(broker, conn, ver, corr, msg)
+			}
+			close(w.stallDone)
+			return
+		}
+		if _, err := io.ReadFull(conn, body); err != nil {
+			return
+		}
+		ver, corr, _, msg, err := protocol.ReadRequest(bytes.NewReader(append(hdr[:], body...)))
 		if err != nil {
 			return
 		}
@@ -215,13 +275,14 @@ func (w *wireCluster) produce(broker int32, m *produce.Request) (protocol.Messag
 		// not the leader: nothing is appended; the records are still read (to name them in the journal)
 		topic := m.Topics[0].Topic
 		part := int(m.Topics[0].Partitions[0].Partition)
-		keys := recordKeys(m)
+		keys, shapes := readRecs(m.Topics[0].Partitions[0].RecordSet.Records)
 		w.mu.Lock()
 		w.misrouted++
 		w.mu.Unlock()
 		w.f.mu.Lock()
-		for _, k := range keys {
+		for i, k := range keys {
 			w.f.attempted[k] = true
+			w.f.shapes[k+":"+shapes[i]] = true
 		}
 		kafka.VerifWriterEmit("Br.Produce", topic, part, joinKeys(keys), "k6")
 		w.f.mu.Unlock()
@@ -232,24 +293,6 @@ func (w *wireCluster) produce(broker int32, m *produce.Request) (protocol.Messag
 		return nil, true
 	}
 	return res.(*produce.Response), false
-}
-
-func recordKeys(r *produce.Request) []string {
-	var keys []string
-	rr := r.Topics[0].Partitions[0].RecordSet.Records
-	for rr != nil {
-		rec, err := rr.ReadRecord()
-		if err != nil {
-			break
-		}
-		k := ""
-		if rec.Key != nil {
-			b, _ := io.ReadAll(rec.Key)
-			k = string(b)
-		}
-		keys = append(keys, k)
-	}
-	return keys
 }
 
 func joinKeys(keys []string) string {
